@@ -14,7 +14,7 @@ MIN_OBLIGATIONS = 45
 THOROUGH_CONFIGS = ("headeronly",)
 TECHNIQUE = ("abstract interpretation over the clang AST (zone / difference-bound-matrix domain with boolean partitioning, widening and narrowing, lambda inlining, "
              "field / parameter / return invariants to a fixpoint): bounds obligations on every unchecked element access, ranking-function synthesis per loop, "
-             "parsed-integer taint with upper bounds at allocation sizes and loop bounds; def-use rule for regular expressions built from text; (pointer, count) extents of tracked buffers; character facts as partition keys for strict indexOf progress; recursion rule on the call graph of the analysed scope; multiplicative-accumulation rule for hand-written number parsing; fixed-extent operator[] (std::bitset/std::array) with character-typed indices ranging over the whole type when read from input text; raw character-pointer rule (arithmetic / dereference has no extent; strncmp-family guards do not establish length); QStack/QQueue as tracked containers; case distinctions kept to the back edge so that a repeating iteration is a definite witness")
+             "parsed-integer taint with upper bounds at allocation sizes and loop bounds; def-use rule for regular expressions built from text; (pointer, count) extents of tracked buffers; character facts as partition keys for strict indexOf progress; recursion rule on the call graph of the analysed scope; multiplicative-accumulation rule for hand-written number parsing; fixed-extent operator[] (std::bitset/std::array) with character-typed indices ranging over the whole type when read from input text; raw character-pointer rule (arithmetic / dereference has no extent; strncmp-family guards do not establish length); QStack/QQueue as tracked containers; case distinctions kept to the back edge so that a repeating iteration is a definite witness; use-after-delete typestate rule on the flattened functions (a delete inside a spliced helper / lambda that received the pointer by value is a delete of the caller's variable; reachability to a later use without an intervening assignment)")
 LEVEL_TEXT = ("For every byte string as pattern, message, function signature, file, category, attribute value or rule text: every at()/operator[]/first()/last()/array subscript in the code reachable "
               "from Formatter::format, Filter::filter and the pattern / rule parsers is proved to be inside its container (sound abstract interpretation in the zone domain, all paths, all loop "
               "iterations); every loop there has a ranking function (strictly progressing bounded integer or shrinking container, lexicographic pairs allowed), so none can spin; an integer parsed "
